@@ -4,9 +4,13 @@ import WuffsVerif.Model.Render
 import WuffsVerif.Model.RenderTokens
 import WuffsVerif.Proof.RenderShape
 import WuffsVerif.Proof.RenderIdemMeasure
+import WuffsVerif.Proof.IndentLex
 /-! Line driver for C12.  Ops:
   format <tabs 0|1> <spaces n> <hex>   -> ok <hex>      (lib/dumbindent FormatBytes(nil, src, opts))
   closed <tabs 0|1> <spaces n> <hex>   -> 1 | 0         (ghost: Indent.lexClosed, the hypothesis of indent_idempotent)
+  term <hex>                           -> <rawTerminated><delimitersTerminated> as two bits (the hypothesis of
+        indent_idempotent_terminated, a predicate on the text alone; the harness sends it for every text its
+        independent classifier calls lexically closed and expects 11)
   num <hex>                            -> ok <hex>      (lang/render appendNum(nil, s))
   fmt <hex>                            -> ok <hex> | reject   (token.Tokenize + render.Render, no parse gate)
   rok <hex>                            -> 1 | 0 tokens | 0 comments | 0 sorted | 0 lines | 0 numcolon | reject
@@ -56,6 +60,10 @@ def c12Step (l : List String) : String :=
       if tabs != "0" && tabs != "1" then "bad-op" else
       if Indent.lexClosed ⟨tabs == "1", n⟩ src then "1" else "0"
     | _, _ => "bad-op"
+  | ["term", hx] =>
+    match fromHex hx with
+    | some src => c12Bit (Indent.rawTerminated src) ++ c12Bit (Indent.delimitersTerminated src)
+    | none => "bad-op"
   | ["fmt", hx] =>
     match fromHex hx with
     | some s => match Render.fmt s with
